@@ -103,7 +103,7 @@ func runC14(c *ev.Ctx) {
 		c.Fatal("payload pool too small")
 		return
 	}
-	n := c.N(6000, 300000)
+	n := c.N(40000, 20000000)
 	var cases []ev.Case
 	for i := 0; i < n; i++ {
 		cases = append(cases, ev.Case{Idx: i, Desc: "history"})
